@@ -2,6 +2,7 @@ import datetime
 import functools
 import math
 import re
+from decimal import Decimal
 
 from ckl.errors import CklRuntimeError
 from ckl.date import to_oa_date, to_date
@@ -811,6 +812,9 @@ class ValueDecimal(Value):
 
     def __repr__(self):
         result = repr(self.value)
+        if "e" in result:
+            # literals have no exponent notation: same digits, written out
+            result = format(Decimal(result), "f")
         if "." not in result:
             result += ".0"
         return result
